@@ -204,19 +204,31 @@ func (auth *Authenticator) MakeSessionCookie(session *LoginSession, secureCookie
 }
 
 func (auth Authenticator) DeleteSessionForCookie(ctx context.Context, rq *http.Request) *http.Cookie {
+	cookie, _ := auth.DeleteSessionForCookieWithError(ctx, rq)
+	return cookie
+}
+
+// DeleteSessionForCookieWithError deletes the session named by the request's session cookie and returns a cookie that
+// expires it. If the session could not be deleted (for a reason other than it no longer existing) the error is
+// returned as well: the session is then still valid, and the caller must not report the logout as successful.
+func (auth Authenticator) DeleteSessionForCookieWithError(ctx context.Context, rq *http.Request) (*http.Cookie, error) {
 	cookie, _ := rq.Cookie(auth.SessionCookieName)
 	if cookie == nil {
-		return nil
+		return nil, nil
 	}
 
+	var deleteErr error
 	if err := auth.DeleteSession(ctx, cookie.Value, ""); err != nil {
 		base.InfofCtx(auth.LogCtx, base.KeyAuth, "Error while deleting session for cookie %s, Error: %v", base.UD(cookie.Value), err)
+		if !base.IsDocNotFoundError(err) {
+			deleteErr = err
+		}
 	}
 
 	newCookie := *cookie
 	newCookie.Value = ""
 	newCookie.Expires = time.Now()
-	return &newCookie
+	return &newCookie, deleteErr
 }
 
 func (auth Authenticator) DeleteSession(ctx context.Context, sessionID string, username string) error {
